@@ -87,8 +87,11 @@ Definition handle_ode (cmd : string) (args : list sexp) : option sexp :=
             let name := fun v => chars ("IDX_" ++ nth v als "?") in
             let mag := fun n => chars (print_Z (Z.of_nat n)) in
             Some (L (map (fun s =>
-                            match tterms_of (nth s (st_rhs (ode_terms i)) []) with
-                            | Some ts => A (str (flatten_with mag name (rhs_txt ts)))
+                            (* rows with modifier terms: C01.rhs_text_with_modifiers_is_law; "none" when a
+                               factor does not parse as C or a modifier has no dependency *)
+                            match gterms_of true (nth s (st_rhs (ode_terms i)) []) with
+                            | Some gs => if facts_parse gs && gdeps_ok gs
+                                         then A (str (flatten_with mag name (grhs_txt gs))) else A "none"
                             | None => A "none"
                             end) (seq 0 (i_nspec i))
                      ++ (* the wrapped temperature row, when there is one *)
@@ -121,7 +124,13 @@ Definition handle_ode (cmd : string) (args : list sexp) : option sexp :=
                                 if jac_wrapped i (fst rc) (snd rc) e
                                 then A (str (flatten_with mag name (wrapped_txt (unspaced ts))))
                                 else A (str (flatten_with mag name (rhs_txt (unspaced ts))))
-                            | None => A "none"
+                            | None =>
+                                (* entries with modifier terms (C02.jac_text_with_modifiers_is_derivative) *)
+                                match gterms_of false e with
+                                | Some gs => if facts_parse gs && negb (jac_wrapped i (fst rc) (snd rc) e)
+                                             then A (str (flatten_with mag name (grhs_txt gs))) else A "none"
+                                | None => A "none"
+                                end
                             end)
                          (flat_map (fun r => map (fun c => (r, c)) (seq 0 n)) (seq 0 n))))
         | _, _ => Some (err "bad ode input")
